@@ -108,16 +108,19 @@ async fn run_init(
         .add_lane(PULSE_LANE, WarpLaneKind::Supply, lane_config)
         .await?;
 
-    Ok(run_task(pulse_interval, view, pulse_io).boxed())
+    Ok(run_task(context, pulse_interval, view, pulse_io).boxed())
 }
 
 type Io = (ByteWriter, ByteReader);
 
 async fn run_task(
+    context: Box<dyn AgentContext + Send>,
     pulse_interval: Duration,
     view: LaneView,
     pulse_io: Io,
 ) -> Result<(), AgentTaskError> {
+    // deferred drop so the agent doesn't terminate early.
+    let _context = context;
     let (_shutdown_tx, shutdown_rx) = trigger::trigger();
     run_pulse_lane(
         shutdown_rx,
